@@ -17,6 +17,7 @@ var (
 	repoDir      = "/repo"
 	verifDir     = "/verif"
 	contractsDir = "/verif/contracts"
+	evidenceDir  = "/verif/evidence"
 )
 
 func main() {
@@ -26,6 +27,12 @@ func main() {
 	}
 	if v := os.Getenv("VERIF_REPO"); v != "" {
 		repoDir = v
+	}
+	if v := os.Getenv("VERIF_OUT"); v != "" {
+		outDir = v
+	}
+	if v := os.Getenv("VERIF_EVIDENCE"); v != "" {
+		evidenceDir = v
 	}
 	switch os.Args[1] {
 	case "check":
@@ -372,9 +379,9 @@ func (ev *Evidence) finish(t0 time.Time, violations int) {
 		ev.Assumptions = []string{}
 	}
 	sort.Strings(ev.Assumptions)
-	os.MkdirAll(filepath.Join(verifDir, "evidence"), 0o755)
+	os.MkdirAll(evidenceDir, 0o755)
 	data, _ := json.MarshalIndent(ev, "", " ")
-	os.WriteFile(filepath.Join(verifDir, "evidence", ev.PropertyID+".json"), data, 0o644)
+	os.WriteFile(filepath.Join(evidenceDir, ev.PropertyID+".json"), data, 0o644)
 }
 
 // ---------- replay files ----------
